@@ -50,6 +50,9 @@ func Orderings(p *core.Prog, r *core.Report) {
 	const rule = "ORDERINGS"
 	na := newNilAn(p)
 	grid := []int64{-2, -1, 0, 1, 2, 3, 6}
+	if Deep {
+		grid = []int64{-7, -6, -3, -2, -1, 0, 1, 2, 3, 4, 5, 6, 7, 12}
+	}
 	n := 0
 	for _, sp := range ordSpecs {
 		f := p.Func(sp.fn)
@@ -140,9 +143,14 @@ func OrderingsTyped(p *core.Prog, r *core.Report) {
 	na := newNilAn(p)
 	carriers := []atom{aInt, aInt8, aInt16, aInt32, aInt64, aUint, aUint8, aUint16, aUint32, aUint64, aFloat32, aFloat64}
 	values := []int64{-3, -1, 0, 1, 3, 4}
+	lo, hi := int64(-7), int64(9)
+	if Deep {
+		values = []int64{-8, -5, -4, -3, -2, -1, 0, 1, 2, 3, 4, 5, 8, 9}
+		lo, hi = -19, 21
+	}
 	// constraints in halves: -3.5 … 4.5
 	var constraints []constant.Value
-	for h := int64(-7); h <= 9; h++ {
+	for h := lo; h <= hi; h++ {
 		constraints = append(constraints, constant.BinaryOp(constant.MakeInt64(h), token.QUO, constant.MakeInt64(2)))
 	}
 	rat := func(v int64) constant.Value { return constant.ToFloat(constant.MakeInt64(v)) }
